@@ -5,7 +5,8 @@ import QipVerif.Model.Noise
 Times: `none` | `s:n/d` (scalar) | `l:n/d;none;n/d` (list, `l:` = empty list); `d > 0`.
 Targets: `none` (default) | `-` (empty) | `0,1`.
 
-* `relax fixed=0|1 dims=2,3 t1=.. t2=.. targets=..`       → `ok <ops>` | `err <kind>`
+* `relax fixed=0|1 [strict=0|1] dims=2,3 t1=.. t2=.. targets=..`       → `ok <ops>` | `err <kind>`
+  (`strict=1`: `_T_to_list` with the entry check of fixes/C15-3.patch; default 0 = entries unchecked, as shipped)
 * `process fixed=0|1 dims=.. t1=.. t2=.. device=0|1 noises=<spec>+<spec>..|-`
      spec: `R~<t1>~<t2>~<targets>` | `D~<ids>~<targets>~<allq 0|1>` | `C`  → `ok <ops>` | `err <kind>`
   `<ops>` = `;`-separated `targets:kind:dim:n/d` (targets `.`-separated, kind `destroy|num|user<id>`,
@@ -65,7 +66,8 @@ def step (line : String) : String :=
   | some "relax" =>
     match fNat? fs "fixed", fNats? fs "dims", (fStr? fs "t1").bind parseT, (fStr? fs "t2").bind parseT,
         (fStr? fs "targets").bind parseTargets with
-    | some fx, some dims, some t1, some t2, some tg => showRes (relaxationOps (fx == 1) dims t1 t2 tg)
+    | some fx, some dims, some t1, some t2, some tg =>
+      showRes (relaxationOpsS ((fNat? fs "strict").getD 0 == 1) (fx == 1) dims t1 t2 tg)
     | _, _, _, _, _ => "bad-op"
   | some "process" =>
     match fNat? fs "fixed", fNats? fs "dims", (fStr? fs "t1").bind parseT, (fStr? fs "t2").bind parseT,
@@ -73,7 +75,7 @@ def step (line : String) : String :=
     | some fx, some dims, some t1, some t2, some dev, some ns =>
       let specs := if ns == "-" then some [] else (splitNE ns "+").mapM parseNoise
       match specs with
-      | some specs => showRes (processNoise (fx == 1) dims specs t1 t2 (dev == 1))
+      | some specs => showRes (processNoiseS ((fNat? fs "strict").getD 0 == 1) (fx == 1) dims specs t1 t2 (dev == 1))
       | none => "bad-op"
     | _, _, _, _, _, _ => "bad-op"
   | _ => "bad-op"
